@@ -83,6 +83,15 @@ def enumerate_injections(ir, uni, kinds=None):
         if "bad-directive" in kinds:
             out.append(_ins("bad-directive", n % len(BAD_DIRECTIVES), url,
                             idx, [BAD_DIRECTIVES[n % len(BAD_DIRECTIVES)]]))
+        if "bad-directive" in kinds and n % 4 == 1:
+            # a conflicting re-definition: the SECOND %define is to blame
+            # (wherever the first one stands: here on the line before, so
+            # that both lie in the same -- possibly included -- resource)
+            out.append(_ins("bad-directive", 90, url, idx,
+                            ["%define zzdup one",
+                             ["%define zzdup two", "%define ZZDUP two",
+                              "  %define zzdup $zzdup.x"][n % 3]],
+                            culprit_off=1))
         if "subst-undefined" in kinds:
             v = ["zz $zz_undefined", "zz a${ZZ_undefined}b",
                  "%define zzq $zz_undefined", "%include $zz_undefined",
